@@ -366,3 +366,129 @@ def generate_cases(repo, rng, count):
                     "T": "struct A { x int, +B }\nenum Z { P, Q, }"}[m]
             cases.append((m, mutate(base, r, pol_texts), "mutation:small"))
     return cases
+
+
+# ------------------------------------------------------------------ C28: well-typed generated policies
+
+def rich_policy(rng):
+    """A well-typed policy with many named definitions in a random order (type definitions that depend on
+    each other, enums, facts, effects, globals, functions calling each other, actions, commands with recall
+    blocks): the constructs whose compilation goes through name-keyed collections."""
+    r = rng
+    pool = ["Alpha", "Beta", "Gamma", "Delta", "Eps", "Zeta", "Eta", "Theta", "Iota", "Kappa", "Lam", "Mu", "Nu", "Xi", "Omi", "Pi",
+            "Rho", "Sigma", "Tau", "Ups", "Phi", "Chi", "Psi", "Omega"]
+    r.shuffle(pool)
+    n_struct = r.range(2, 8)
+    structs = pool[:n_struct]
+    enums = ["En" + x for x in pool[n_struct:n_struct + r.range(1, 3)]]
+    facts = ["Fa" + x for x in pool[10:10 + r.range(1, 4)]]
+    effects = ["Ef" + x for x in pool[14:14 + r.range(1, 3)]]
+    cmds = ["Cm" + x for x in pool[17:17 + r.range(1, 3)]]
+    prim = ["int", "bool", "string", "id", "bytes", "option[int]", "option[string]"]
+    items = []
+    # struct i may refer to structs with a larger index (a DAG), by field or by insertion
+    sdefs = {}
+    for i, s in enumerate(structs):
+        fields = [("f%d" % j, r.choice(prim + ["enum " + r.choice(enums)])) for j in range(r.range(1, 4))]
+        later = structs[i + 1:]
+        text_fields = ["%s %s" % f for f in fields]
+        if later and r.chance(2, 3):
+            text_fields.append("s%d struct %s" % (i, r.choice(later)))
+        sdefs[s] = fields
+        items.append("struct %s { %s }" % (s, ", ".join(text_fields)))
+    for e in enums:
+        items.append("enum %s { %s }" % (e, ", ".join("V%d" % j for j in range(r.range(1, 4)))))
+    for f in facts:
+        items.append("%sfact %s[k int%s]=>{v int, w string}" % ("immutable " if r.chance(1, 4) else "", f, ", k2 bool" if r.chance(1, 2) else ""))
+    for e in effects:
+        items.append("effect %s { a int, b string%s }" % (e, " dynamic" if r.chance(1, 2) else ""))
+    nglob = r.range(0, 3)
+    for j in range(nglob):
+        items.append("let g%d = %s" % (j, r.choice(["1", "\"s\"", "true", "%s::V0" % enums[0], "Some(3)"])))
+    nfun = r.range(1, 5)
+    for j in range(nfun):
+        callee = "fn%d(x)" % r.below(j) if j and r.chance(1, 2) else "x"
+        body = r.choice([
+            "return saturating_add(%s, %d)" % (callee, r.below(5)),
+            "if x > %d { return %s } return x" % (r.below(4), callee),
+            "let o = add(x, 1)\n match o { Some(v) => { return v } None => { return 0 } }",
+            "let c = count_up_to 3 %s[k: x%s]\n return c" % (facts[0], ""),
+            "match x { 0 => { return 1 } 1 | 2 => { return %s } _ => { return x } }" % callee,
+        ])
+        if "count_up_to" in body and "k2" in [i for i in items if i.split("fact ")[-1].startswith(facts[0])][0]:
+            body = "return x"
+        items.append("function fn%d(x int) int { %s }" % (j, body))
+    items.append("function mk() struct %s { return %s }" % (structs[-1], struct_lit(structs[-1], sdefs)))
+    for c in cmds:
+        f0 = facts[0]
+        two = "k2" in [i for i in items if ("fact " + f0 + "[") in i][0]
+        key = "k: this.a, k2: true" if two else "k: this.a"
+        items.append("""command %s {
+    attributes { prio: %d, tag: "%s" }
+    fields { a int, b string }
+    seal { return todo() }
+    open { return todo() }
+    policy {
+        let cnt = fn0(this.a)
+        check cnt >= 0 else recall again()
+        let e = exists %s[%s]
+        if e { finish { emit %s { a: cnt, b: this.b } } }
+        else { finish { create %s[%s]=>{v: cnt, w: this.b}
+                        emit %s { a: cnt, b: "new" } } }
+    }
+    recall again() { finish { emit %s { a: 0, b: "recalled" } } }
+}""" % (c, r.below(9), c.lower(), f0, key, effects[0], f0, key, effects[-1], effects[0]))
+    nact = r.range(1, 4)
+    for j in range(nact):
+        c = r.choice(cmds)
+        items.append("%saction act%d(x int, s string) { let y = fn%d(x)\n publish %s { a: y, b: s } }" % ("", j, r.below(nfun), c))
+    r.shuffle(items)
+    return "\n".join(items)
+
+
+def struct_lit(name, sdefs):
+    def lit(t):
+        if t == "int":
+            return "1"
+        if t == "bool":
+            return "true"
+        if t == "string":
+            return '"x"'
+        if t.startswith("option"):
+            return "None"
+        if t.startswith("enum "):
+            return t[5:] + "::V0"
+        return None
+    fields = []
+    for (f, t) in sdefs[name]:
+        v = lit(t)
+        if v is None:
+            return "todo()"
+        fields.append("%s: %s" % (f, v))
+    return "%s { %s }" % (name, ", ".join(fields))
+
+
+def generate_policies(repo, rng, count):
+    """C28 cases: (mode, text, origin) — mostly policies that compile"""
+    import gen_frontend
+    rules = gen_frontend.parse_grammar(repo)
+    pol, docs = corpus(repo)
+    texts = [t for (_, t) in pol]
+    gg = GrammarGen(rules, rng.fork())
+    r = rng
+    cases = [("S", t, "corpus:" + n) for (n, t) in pol] + [("D", t, "corpus:" + n) for (n, t) in docs]
+    while len(cases) < count:
+        k = r.below(100)
+        if k < 55:
+            cases.append(("S", rich_policy(r), "generated:rich"))
+        elif k < 70:
+            cases.append(("S", rich_policy(r) + "\n" + PRELUDE.replace("use test\n", ""), "generated:rich+prelude"))
+        elif k < 85:
+            t = r.choice(texts)
+            cases.append(("S", mutate(t, r, texts), "mutation:corpus"))
+        elif k < 93:
+            e = gg.gen("expression", budget=r.choice([8, 20]))
+            cases.append(("S", PRELUDE + "function q() int { let z = %s\n return 0 }" % e, "grammar:expr-in-context"))
+        else:
+            cases.append(("D", doc_wrap(rich_policy(r), r), "markdown:rich"))
+    return cases
